@@ -5,13 +5,14 @@ package simrand
 
 import (
 	"math/rand"
-	"sync"
 
 	"verifsim/simrt"
 )
 
+// A source is, like the one of math/rand, NOT safe for concurrent use: it adds no synchronisation of its own, so
+// that the race detector sees a *rand.Rand shared by several instances exactly as it would see the real one
+// (an earlier version locked a mutex here and thereby hid such races).
 type source struct {
-	mu   sync.Mutex
 	seed int64
 	cur  *simrt.Sim
 	src  rand.Source64
@@ -29,9 +30,9 @@ func (s *source) sync() {
 	}
 }
 
-func (s *source) Int63() int64    { s.mu.Lock(); defer s.mu.Unlock(); s.sync(); return s.src.Int63() }
-func (s *source) Uint64() uint64  { s.mu.Lock(); defer s.mu.Unlock(); s.sync(); return s.src.Uint64() }
-func (s *source) Seed(seed int64) { s.mu.Lock(); s.seed = seed; s.src = nil; s.mu.Unlock() }
+func (s *source) Int63() int64    { s.sync(); return s.src.Int63() }
+func (s *source) Uint64() uint64  { s.sync(); return s.src.Uint64() }
+func (s *source) Seed(seed int64) { s.seed = seed; s.src = nil }
 
 // NewSource ignores wall-clock derived seeds: the seed only distinguishes
 // sources within a run.
@@ -42,18 +43,65 @@ func NewSource(seed int64) rand.Source {
 	return &source{seed: seed}
 }
 
-var global = rand.New(NewSource(7))
-var gmu sync.Mutex
+// The top-level functions of math/rand are safe for concurrent use and (pandora never seeds the global source) take no
+// lock the race detector could see: concurrent callers are not ordered by them. The replacement therefore keeps no
+// state of its own: a value is a hash of the run's seed and the simulation's event counter (deterministic under the
+// seeded scheduler), and the counter is bumped with the detector's synchronisation handling switched off.
+func u64() uint64 {
+	s := simrt.Cur()
+	if s == nil {
+		return rand.Uint64()
+	}
+	simrt.RaceDisable()
+	n := simrt.Seq()
+	simrt.RaceEnable()
+	z := s.Tape.Seed ^ 0x6a09e667f3bcc909 + n*0x9e3779b97f4a7c15
+	z = (z ^ (z >> 30)) * 0xbf58476d1ce4e5b9
+	z = (z ^ (z >> 27)) * 0x94d049bb133111eb
+	return z ^ (z >> 31)
+}
 
-func Int() int                           { gmu.Lock(); defer gmu.Unlock(); return global.Int() }
-func Intn(n int) int                     { gmu.Lock(); defer gmu.Unlock(); return global.Intn(n) }
-func Int63() int64                       { gmu.Lock(); defer gmu.Unlock(); return global.Int63() }
-func Int63n(n int64) int64               { gmu.Lock(); defer gmu.Unlock(); return global.Int63n(n) }
-func Int31() int32                       { gmu.Lock(); defer gmu.Unlock(); return global.Int31() }
-func Int31n(n int32) int32               { gmu.Lock(); defer gmu.Unlock(); return global.Int31n(n) }
-func Uint32() uint32                     { gmu.Lock(); defer gmu.Unlock(); return global.Uint32() }
-func Uint64() uint64                     { gmu.Lock(); defer gmu.Unlock(); return global.Uint64() }
-func Float64() float64                   { gmu.Lock(); defer gmu.Unlock(); return global.Float64() }
-func Perm(n int) []int                   { gmu.Lock(); defer gmu.Unlock(); return global.Perm(n) }
-func Shuffle(n int, swap func(i, j int)) { gmu.Lock(); defer gmu.Unlock(); global.Shuffle(n, swap) }
-func Read(p []byte) (int, error)         { gmu.Lock(); defer gmu.Unlock(); return global.Read(p) }
+func Int63() int64   { return int64(u64() >> 1) }
+func Int() int       { return int(uint(Int63())) }
+func Int31() int32   { return int32(Int63() >> 32) }
+func Uint32() uint32 { return uint32(u64() >> 32) }
+func Uint64() uint64 { return u64() }
+func Int63n(n int64) int64 {
+	if n <= 0 {
+		panic("invalid argument to Int63n")
+	}
+	return int64(u64() % uint64(n))
+}
+func Int31n(n int32) int32 {
+	if n <= 0 {
+		panic("invalid argument to Int31n")
+	}
+	return int32(u64() % uint64(n))
+}
+func Intn(n int) int {
+	if n <= 0 {
+		panic("invalid argument to Intn")
+	}
+	return int(u64() % uint64(n))
+}
+func Float64() float64 { return float64(u64()>>11) / (1 << 53) }
+func Perm(n int) []int {
+	m := make([]int, n)
+	for i := range m {
+		j := Intn(i + 1)
+		m[i] = m[j]
+		m[j] = i
+	}
+	return m
+}
+func Shuffle(n int, swap func(i, j int)) {
+	for i := n - 1; i > 0; i-- {
+		swap(i, Intn(i+1))
+	}
+}
+func Read(p []byte) (int, error) {
+	for i := range p {
+		p[i] = byte(u64())
+	}
+	return len(p), nil
+}
